@@ -226,6 +226,13 @@ Definition fam_E3 := {| dname := 3; dgen := 0; ddata := DEnum [                 
 Definition fam_S4 := {| dname := 4; dgen := 1; ddata := DStruct (named [1; 2]) |}.             (* struct S4<T> { a: T, b: L } *)
 Definition fam_S5 := {| dname := 5; dgen := 0; ddata := DStruct (named [1; 2; 3; 4]) |}.       (* struct S5 { inner: S1, e: E3, o: Option<L>, v: Vec<L> } *)
 
+(* field NAMES as a dimension (the macro sees identifiers): 1,2,3.. ordinary; in the harness
+   S6 { _pad: L, r#type: L, x: L, _tag: L }   and   enum E7 { A { _a: L, b: L }, B(L), C { r#match: L, _z: L } } *)
+Definition fam_S6 := {| dname := 6; dgen := 0; ddata := DStruct (named [1; 2; 3; 4]) |}.
+Definition fam_E7 := {| dname := 7; dgen := 0; ddata := DEnum [
+   {| vname := 0; vfields := named [1; 2] |}; {| vname := 1; vfields := unnamed 1 |};
+   {| vname := 2; vfields := named [1; 2] |}] |}.
+
 Definition nthN (l : list N) (i : nat) : N := nth i l 0.
 
 Definition rv_struct_named (ns ls : list N) := {| rv_variant := 0; rv_named := combine ns ls; rv_pos := [] |}.
@@ -239,17 +246,26 @@ Definition e3_value (k : N) (a b c : N) : rvalue :=
   | _ => {| rv_variant := 3; rv_named := []; rv_pos := [a] |}
   end.
 
+Definition e7_value (k : N) (a b : N) : rvalue :=
+  match k mod 3 with
+  | 0 => {| rv_variant := 0; rv_named := [(1, a); (2, b)]; rv_pos := [] |}
+  | 1 => {| rv_variant := 1; rv_named := []; rv_pos := [a] |}
+  | _ => {| rv_variant := 2; rv_named := [(1, a); (2, b)]; rv_pos := [] |}
+  end.
+
 Definition oget (o : option N) : N := match o with Some x => x | None => 999999 end.
 
 (* script: fam k l0 .. l9  (missing numbers are 0; each l is reduced mod 1000) *)
 Definition fam_len (fam k : N) (ls : list N) : N :=
   let l := fun i => nthN ls i mod 1000 in
-  match fam mod 6 with
+  match fam mod 8 with
   | 0 => oget (byte_len fam_S0 (rv_struct_pos []))
   | 1 => oget (byte_len fam_S1 (rv_struct_named [1; 2; 3] [l 0%nat; l 1%nat; l 2%nat]))
   | 2 => oget (byte_len fam_S2 (rv_struct_pos [l 0%nat; l 1%nat]))
   | 3 => oget (byte_len fam_E3 (e3_value k (l 0%nat) (l 1%nat) (l 2%nat)))
   | 4 => oget (byte_len fam_S4 (rv_struct_named [1; 2] [l 0%nat; l 1%nat]))
+  | 6 => oget (byte_len fam_S6 (rv_struct_named [1; 2; 3; 4] [l 0%nat; l 1%nat; l 2%nat; l 3%nat]))
+  | 7 => oget (byte_len fam_E7 (e7_value k (l 0%nat) (l 1%nat)))
   | _ => let inner := oget (byte_len fam_S1 (rv_struct_named [1; 2; 3] [l 0%nat; l 1%nat; l 2%nat])) in
          let e := oget (byte_len fam_E3 (e3_value k (l 3%nat) (l 4%nat) (l 5%nat))) in
          let o := if (l 6%nat) mod 2 =? 1 then l 7%nat else 0 in        (* Option<L>: Some(L(l7)) | None *)
